@@ -218,7 +218,7 @@ func (l *Lexer) scanAccount() Token {
 		}
 
 		l.pos += size
-		l.column++
+		l.column += utf16Width(r)
 		lastNonSpace = l.pos
 	}
 
@@ -284,7 +284,7 @@ func (l *Lexer) scanCurrencySymbol() Token {
 	startPos := l.position()
 	r, size := utf8.DecodeRuneInString(l.input[l.pos:])
 	l.pos += size
-	l.column++
+	l.column += utf16Width(r)
 	return Token{Type: TokenCommodity, Value: string(r), Pos: startPos, End: l.position()}
 }
 
@@ -432,10 +432,19 @@ func (l *Lexer) peekRune() rune {
 
 func (l *Lexer) advance() {
 	if l.pos < len(l.input) {
-		_, size := utf8.DecodeRuneInString(l.input[l.pos:])
+		r, size := utf8.DecodeRuneInString(l.input[l.pos:])
 		l.pos += size
-		l.column++
+		l.column += utf16Width(r)
 	}
+}
+
+// utf16Width is the number of UTF-16 code units r takes. Columns are counted in these
+// units because every consumer of a Position turns Column-1 into an LSP character offset.
+func utf16Width(r rune) int {
+	if r >= 0x10000 {
+		return 2
+	}
+	return 1
 }
 
 func (l *Lexer) skipSpaces() {
